@@ -498,6 +498,16 @@ def State.quiet (sh : List Nat) (v : View) : State → Bool
   | .inv a => a.quiet sh v
   | _ => true
 
+/-- Selections without a leaf that has a listed loud failure. -/
+def State.plain : State → Bool
+  | .roiChunked _ _ => false
+  | .loop1d _ _ => false
+  | .and a b => a.plain && b.plain
+  | .or a b => a.plain && b.plain
+  | .xor a b => a.plain && b.plain
+  | .inv a => a.plain
+  | _ => true
+
 /-! ## `IndexedData` -/
 
 /-- The reduced dataset's shape. -/
